@@ -1,4 +1,4 @@
-import RlibModel.Lemmas.FftExact
+import RlibModel.Lemmas.FftSpectral
 /-!
 # C04 — FFT multiplication exact inside the precision envelope, independent of the object's history
 
@@ -177,6 +177,82 @@ theorem multiply_exact_partial (A : Arith K) (h : List (Op K)) (a b : Array Int)
     fun ha hb => multiply_len A _ a b ha hb⟩
   rw [multiply_into_adds, multiply_history_independent]
 
+/-- **Every accumulate-into inverse transform adds what the plain one returns**, at every size including the
+    one-bin transform (`n == 1` has its own branch in `fft_inv_into`), for every destination length, every arithmetic
+    and every call history: `fft_inv_into(v, res)` = `res` + `fft_inv(v)` on the common prefix, `res` unchanged beyond;
+    and it raises the same panic. -/
+theorem fft_inv_into_adds (A : Arith K) (h : List (Op K)) (v : Array K) (res : List Int) :
+    (fftInvInto? A (after A h) v res).map (·.2) = (fftInv? A (new A) v).map (fun r => addPrefix res r.2) := by
+  have e : (fftInv? A (new A) v).map (fun r => addPrefix res r.2)
+      = ((fftInv? A (new A) v).map (·.2)).map (addPrefix res) := by
+    cases fftInv? A (new A) v <;> rfl
+  rw [e]
+  unfold fftInv?
+  rw [fftInvInto?_result A _ (reach_after A h), fftInvInto?_result A _ (reach_new A)]
+  unfold fftInvIntoRef?
+  by_cases hp : isPow2 v.size = true
+  · obtain ⟨m, hm⟩ := exists_of_isPow2 _ hp
+    rw [hp]
+    simp only [Bool.not_true, Bool.false_eq_true, if_false, Except.map]
+    rw [fftInvIntoRef_adds A m v hm res]
+  · have : isPow2 v.size = false := by simpa using hp
+    rw [this]
+    rfl
+
+/-- **`fft_into` adds what `fft` returns** (`Complex +=`, common prefix; the rest of a longer destination is untouched —
+    `accC`), any history, every arithmetic in which adding `ZERO + y` equals adding `y`: exact arithmetic, and IEEE
+    arithmetic whenever the destination entry is not `-0.0` (destinations built from integers never are). -/
+theorem fft_into_adds (A : Arith K) (hz : ∀ x y, A.add x (A.add A.zero y) = A.add x y)
+    (h : List (Op K)) (v : Array Int) (n : Nat) (res : Array K) :
+    (fftInto? A (after A h) v n res).map (·.2) = (fft? A (new A) v n).map (fun r => accC A res r.2) := by
+  have e : (fft? A (new A) v n).map (fun r => accC A res r.2) = ((fft? A (new A) v n).map (·.2)).map (accC A res) := by
+    cases fft? A (new A) v n <;> rfl
+  rw [e]
+  unfold fft?
+  rw [fftInto?_result A _ (reach_after A h), fftInto?_result A _ (reach_new A)]
+  unfold fftIntoRef?
+  simp only []
+  by_cases h1 : v.size > fftSize v.size n
+  · rw [if_pos h1, if_pos h1]; rfl
+  · rw [if_neg h1, if_neg h1]
+    by_cases hp : isPow2 (fftSize v.size n) = true
+    · obtain ⟨m, hm⟩ := exists_of_isPow2 _ hp
+      rw [hp]
+      simp only [Bool.not_true, Bool.false_eq_true, if_false, Except.map]
+      rw [hm, Nat.log2_two_pow, fftIntoRef_adds A hz v m res]
+    · have : isPow2 (fftSize v.size n) = false := by simpa using hp
+      rw [this]
+      rfl
+
+/-- `fft(v, 0)` is `fft(v, n)` for `n` = the smallest power of two `≥ v.len()` (1 for an empty or one-element input):
+    the auto-sized forward / pointwise / inverse route is the explicit-size route. Any state, any arithmetic. -/
+theorem fft_autosize (A : Arith K) (s : State K) (v : Array Int) :
+    fft? A s v 0 = fft? A s v (ceilPow2 1 v.size) :=
+  fft?_autosize A s v
+
+/-- **Several live objects.** A program over a pool of objects — calls on any of them in any interleaving, `clone`,
+    `clone_from`, `default()`, `new()`, `std::mem::take` between them, starting from objects obtained in any way
+    (`Build`) — leaves every object answering every call
+    exactly like a brand-new `FFT::new()`: nothing is shared between objects, and a copy made mid-history is as good as
+    its original. -/
+theorem pool_objects_independent (A : Arith K) (builds : Array (Build K)) (prog : List (PoolOp K)) (k : Nat) (op : Op K) :
+    result A ((poolAfter A (builds.map (·.state A)) prog).getD k (new A)) op = result A (new A) op := by
+  have h0 : PoolOk A (builds.map (·.state A)) := by
+    intro i
+    rw [Array.getD_eq_getD_getElem?, Array.getElem?_map]
+    cases builds[i]? with
+    | none => exact reach_new A
+    | some b => exact reach_build A b
+  rw [(call_reach A _ (poolAfter_ok A prog _ h0 k) op).1, (call_reach A _ (reach_new A) op).1]
+
+/-- Whatever the caller does to the spectra with the operators of `Complex<F>` between the forward transforms and
+    `fft_inv_into` (`SExpr`: `+ - * /`, their assign forms, `neg`, `conj`, `abs2`, `abs`, scaling, `ZERO`/`ONE`/`I`),
+    the result does not depend on the object's history (instance of `call_history_independent`). -/
+theorem spectral_history_independent (A : Arith K) (h : List (Op K)) (e : SExpr) (vs : List (Array Int)) (n : Nat)
+    (res : List Int) :
+    result A (after A h) (.spectral e vs n res) = result A (new A) (.spectral e vs n res) :=
+  call_history_independent A h _
+
 /-! ## Level B — exact arithmetic -/
 
 section LevelB
@@ -279,6 +355,20 @@ theorem fft_mul_inv_into_adds (h : List (Op ℂ)) (a b : Array Int) (m : Nat) (h
   rw [fftMulInvIntoRef?_exact a b m ha hb hlen, range_map_convAt a b (2^m) ha hb hlen]
   rfl
 
+/-- **Everything a caller can do to the spectra with the operators of `Complex<F>`** — products in operator or assign
+    form, sums and differences of products, negation, scaling and division by a scalar, `conj`, `abs2`, `abs`, division by
+    the spectrum of a unit monomial, `ZERO`/`default()`, `ONE`, `I`, nested at will (`SExpr`) — between the forward
+    transforms of any number of operands and `fft_inv_into`: the destination receives exactly the integer sequence the
+    SAME expression denotes in `ℤ[i][x]/(xⁿ - 1)` (`*` = cyclic convolution, `conj` = index reversal, …: `SExpr.expected`),
+    whenever that sequence is defined and real.  Exact arithmetic, any call history, any destination length. -/
+theorem spectral_exact (h : List (Op ℂ)) (e : SExpr) (vs : List (Array Int)) (m : Nat) (hvs : ∀ v ∈ vs, v.size ≤ 2^m)
+    (c : List Int) (hc : e.expected (2^m) vs = some c) (dest : List Int) :
+    result arithC (after arithC h) (.spectral e vs (2^m) dest) = .ok (.ints (addPrefix dest c)) := by
+  rw [(call_reach arithC _ (reach_after arithC h) _).1]
+  simp only [resultRef]
+  rw [spectralRef?_exact m e vs hvs c hc]
+  rfl
+
 end LevelB
 
 /-! ### non-vacuity -/
@@ -299,6 +389,13 @@ def junk : Arith Int where
   setIm c v := c - 2 * v
   roundRe c := c
   roundIm c := c + 1
+  neg a := 3 - a
+  scale k a := a * k + 2
+  divS k a := a / (k + 1)
+  div a b := a - b * b
+  abs2 a := a * a + 1
+  absq a := a * a - 1
+  ci := 11
 
 /-- Histories do change the object: after `update_n(16)` the tables have 16 / 17 entries … -/
 example : (after junk [.updateN 16]).rev.size = 16 ∧ (after junk [.updateN 16]).w.size = 17 := by
@@ -329,6 +426,53 @@ example : result junk ((Build.call (.clone (.call .default (.updateN 16))) (.mul
 
 example : (multiply junk (new junk) #[1, -2, 5] #[3, 4]).2.length = 4 :=
   multiply_len junk _ _ _ (by decide) (by decide)
+
+/-- The one-bin inverse transform (`n == 1` branch) ADDS: 1000 becomes 1005, not 5 … -/
+example : (fftInvIntoCore junk (new junk) #[5] [1000, 7]).2 = [1005, 7] := rfl
+
+/-- … and that is what `fft_inv_into_adds` says for it, on an object with a history. -/
+example : (fftInvInto? junk (after junk [.updateN 16]) #[5] [1000, 7]).map (·.2)
+    = (fftInv? junk (new junk) #[5]).map (fun r => addPrefix [1000, 7] r.2) :=
+  fft_inv_into_adds junk _ _ _
+
+/-- The hypothesis of `fft_into_adds` holds in exact arithmetic. -/
+example : ∀ x y : ℂ, arithC.add x (arithC.add arithC.zero y) = arithC.add x y := by
+  intro x y; simp [arithC]
+
+example : (fftInto? arithC (after arithC [.updateN 16]) #[1, 2] 2 #[5, 6, 7]).map (·.2)
+    = (fft? arithC (new arithC) #[1, 2] 2).map (fun r => accC arithC #[5, 6, 7] r.2) :=
+  fft_into_adds arithC (by intro x y; simp [arithC]) _ _ _ _
+
+/-- three coefficients: `fft(v, 0)` is the transform of size 4 -/
+example : fft? junk (new junk) #[1, 2, 3] 0 = fft? junk (new junk) #[1, 2, 3] 4 := by
+  rw [fft_autosize]
+  have : ceilPow2 1 (#[1, 2, 3] : Array Int).size = 4 := by
+    show ceilPow2 1 3 = 4
+    rw [ceilPow2, dif_pos (by omega), ceilPow2, dif_pos (by omega), ceilPow2, dif_neg (by omega)]
+  rw [this]
+
+/-- four live objects: calls interleaved, a clone taken mid-history with both copies used afterwards, `mem::take` -/
+example : result junk ((poolAfter junk ((#[.new, .default, .clone .new, .new] : Array (Build Int)).map (·.state junk))
+      [.call 1 (.updateN 16), .clone 1 2, .call 1 (.multiply #[1] #[2, 3]), .call 2 (.updateN 64), .take 2 0,
+       .cloneFrom 0 3, .default 1]).getD 0 (new junk)) (.multiply #[3] #[4, 5])
+    = result junk (new junk) (.multiply #[3] #[4, 5]) :=
+  pool_objects_independent junk _ _ _ _
+
+example : result junk (after junk [.updateN 32]) (.spectral (.add (.mul (.leaf 0) (.leaf 1)) (.conj (.leaf 0))) [#[1, 2], #[3]] 4 [9])
+    = result junk (new junk) (.spectral (.add (.mul (.leaf 0) (.leaf 1)) (.conj (.leaf 0))) [#[1, 2], #[3]] 4 [9]) :=
+  spectral_history_independent junk _ _ _ _ _
+
+/-- `fa *= fb` then `fft_inv_into`: (1 + 2x)(3 + 4x) = 3 + 10x + 8x² added to a destination of five sevens -/
+example : result arithC (after arithC [.updateN 64]) (.spectral (.mul (.leaf 0) (.leaf 1)) [#[1, 2], #[3, 4]] (2^2) [7, 7, 7, 7, 7])
+    = .ok (.ints [10, 17, 15, 7, 7]) :=
+  spectral_exact _ _ _ 2 (by decide) [3, 10, 8, 0] (by decide +kernel) _
+
+/-- `fa * fb.conj()` is the cyclic correlation, `-(fa / fc)` with `c = x` a shift with a sign -/
+example : result arithC (after arithC []) (.spectral (.mul (.leaf 0) (.conj (.leaf 1))) [#[1, 2], #[3, 4]] (2^2) [])
+    = .ok (.ints []) :=
+  spectral_exact _ _ _ 2 (by decide) [11, 6, 0, 4] (by decide +kernel) _
+
+example : (SExpr.neg (.div (.leaf 0) (.leaf 1))).expected 4 [#[1, 2, 3], #[0, 1]] = some [-2, -3, 0, -1] := by decide +kernel
 
 /-- Level B on a concrete input with negative coefficients and a history: (1 - 2x + 3x²)(4 + 5x) . -/
 example : (multiply arithC (after arithC [.updateN 64, .multiply #[7] #[9, 9]]) #[1, -2, 3] #[4, 5]).2 = [4, -3, 2, 15] := by
